@@ -146,7 +146,8 @@ def expect_item(kind, name, members=None):
 # ------------------------------------------------------------------------------- cases
 def case_annotation(case):
     """symbolic attribute identifier on one item (plus an un-annotated and an annotated neighbour)"""
-    kind, depth, form = case
+    kind, depth, form = case[:3]
+    alone = len(case) > 3 and case[3] == "alone"     # the item is the only annotated one of its file
     if form == "path":
         annot = "#[Qannotate]"
     elif form == "list":
@@ -157,7 +158,7 @@ def case_annotation(case):
         annot = "#[Qannotate::other]"
     elif form == "cfg_attr":
         annot = "#[cfg_attr(feature = \"x\", Qannotate)]"
-    src = wrap_mods(item_src(kind, "Target", annot), depth) + "\n" + item_src("struct", "Plain", "") + "\n" + item_src("alias", "Marked", "#[typeshare]") + "\n"
+    src = wrap_mods(item_src(kind, "Target", annot), depth) + "\n" + item_src("struct", "Plain", "") + "\n" + ("" if alone else item_src("alias", "Marked", "#[typeshare]") + "\n")
     res = {"paths": 0, "violations": [], "src": src}
     I = None
 
@@ -167,7 +168,8 @@ def case_annotation(case):
             I.assume(z3.Or(z3.And(z3.UGE(c, 97), z3.ULE(c, 122)), c == 95))
         return {"Qannotate": cs}
     is_ts = None
-    for I, k, pd, pc in explore_source(src, plant):
+    # entered through parser::parse: the textual pre-filter sees the same symbolic attribute word as the AST
+    for I, k, pd, pc in explore_source(src, plant, via_parse=True):
         res["paths"] += 1
         cs = [z3.BitVec("a%d" % i, 32) for i in range(9)]
         is_ts = z3.And([c == ord(x) for c, x in zip(cs, "typeshare")])
@@ -177,7 +179,7 @@ def case_annotation(case):
         where, entry = expect_item(kind, "Target")
         present = entry in got[where] if isinstance(entry, str) else any(x[0] == "Target" for x in got[where])
         should = is_ts if form != "cfg_attr" else z3.BoolVal(False)
-        others_ok = ("Marked" in got["aliases"]) and not any(x[0] == "Plain" for x in got["structs"]) and not got["errors"]
+        others_ok = (alone or "Marked" in got["aliases"]) and not any(x[0] == "Plain" for x in got["structs"]) and not got["errors"]
         bad = z3.Or(z3.BoolVal(bool(present)) != should, z3.BoolVal(not others_ok))
         m = I.sat_model(bad)
         if m is not None:
@@ -281,7 +283,10 @@ def case_file(case):
     for i, (k, a) in enumerate(zip(kinds, annotated)):
         name = "N%d" % i
         if i == failing_at:
-            parts.append("#[typeshare]\npub struct %s { pub bad: u64 }" % name)
+            # an annotated item that cannot be generated: reported as an error and not generated in part (the failing member varies)
+            bad = ["pub struct %s { pub bad: u64 }", '#[serde(tag = "t", content = "c")]\npub enum %s { Keep(String), V { ok: String, bad: u64 } }',
+                   "pub type %s = Vec<u64>;", '#[serde(tag = "t", content = "c")]\npub enum %s { Keep(String), V(u64) }'][(failing_at + depth) % 4]
+            parts.append("#[typeshare]\n" + bad % name)
             exp["errors"].append("src/lib.rs")
             continue
         txt = item_src(k, name, "#[typeshare]" if a else "")
@@ -672,6 +677,7 @@ def run(rep, tier, only=None):
     mk = list(MARKERS.keys())
     ann_cases = [(k, d, f) for k in KINDS for d in (0, 1, 2) for f in ("path", "list", "qualified", "qualified_first", "cfg_attr")]
     ann_cases += [(k, pl, "path") for k in KINDS for pl in PLACES]
+    ann_cases += [(k, d, f, "alone") for k in KINDS for d in (0, 1) for f in ("path", "list", "qualified", "qualified_first")]
     word_cases = [(c, w) for c in ("struct", "unit_enum", "alg_enum", "struct_variant") for w in ("word", "attr", "attr9", "word_ts")]
     if tier == "quick":
         pairs = [(a, b) for a in mk for b in mk]
@@ -690,7 +696,7 @@ def run(rep, tier, only=None):
                   "markers": "marker word (4 chars) / attribute name (5 and 9 chars) symbolic on the middle member of struct, unit enum, data enum, struct variant",
                   "members": "3 members x %d marker arrangements (%s)" % (len(mk), "all triples" if tier == "thorough" else "all pairs + seed-rotated third"),
                   "files": "4 items of mixed kinds, every annotated subset, an optional failing item, module depth 0..2"}
-    rep.outside = ["the textual pre-filter `source.contains(\"#[typeshare\")` (text level; syn's lexer is not encoded)", "members of enums in the generated text (C02 reads them); helper types a back end derives are not counted as invented", "more than 3 members / 4 items"]
+    rep.outside = ["attribute paths whose first segment is not `typeshare` (`#[ts::typeshare]` through a renamed crate): the textual pre-filter of parser::parse skips a file without the text `#[typeshare`; syn's lexer itself is not encoded (source text -> AST by the real syn)", "members of enums in the generated text (C02 reads them); helper types a back end derives are not counted as invented", "more than 3 members / 4 items"]
     rep.assumptions = ["syn::visit's default traversal is a model (children in field order)", "source text -> AST by the real syn"]
     mk_ = list(MERGE_FILES)
     mg_cases = [(a, b) for a in mk_ for b in mk_] + [(a, b, c) for a in ("const", "error", "const+error") for b in mk_ for c in ("struct", "const", "mixed")]
